@@ -233,15 +233,16 @@ Fixpoint block_toks (cls : bool) (env : path) (k : nat) (b : list stmt) : list t
 
 Definition toks (p : program) : list tok := fst (block_toks false [] 0%nat p).
 
-(* plain methods: the functions written directly in a class body whose first positional parameter is the
-   instance (kind "method": no staticmethod / classmethod decorator).  [odd] lists the decorator names that
-   change the kind; a function with such a decorator is listed with [false]. *)
-Fixpoint s_methods (odd : list ident) (cls : bool) (env : path) (k : nat) (s : stmt) {struct s}
-  : list (path * ident * bool) * nat :=
-  let fix blk (cls : bool) (env : path) (k : nat) (b : list stmt) {struct b} : list (path * ident * bool) * nat :=
+(* the functions written directly in a class body, with their first positional parameter, whether their kind is
+   "method" (no decorator that is a plain name listed in [odd] = staticmethod / classmethod: the first
+   parameter is the instance), and whether a decorator is the plain name [prop] = property (_ClassVisitor
+   then stores an EvaluatedName instead of a DefinedName: the object of the name is not the function) *)
+Fixpoint s_methods (odd : list ident) (prop : ident) (cls : bool) (env : path) (k : nat) (s : stmt) {struct s}
+  : list (path * option ident * (bool * bool)) * nat :=
+  let fix blk (cls : bool) (env : path) (k : nat) (b : list stmt) {struct b} : list (path * option ident * (bool * bool)) * nat :=
     match b with
     | [] => ([], k)
-    | x :: r => let '(a, k1) := s_methods odd cls env k x in
+    | x :: r => let '(a, k1) := s_methods odd prop cls env k x in
                 let '(c, k2) := blk cls env k1 r in (a ++ c, k2)
     end in
   match s with
@@ -257,7 +258,7 @@ Fixpoint s_methods (odd : list ident) (cls : bool) (env : path) (k : nat) (s : s
       let '(d, k3) := blk cls env k2 o in (c ++ d, k3)
   | SWith _ _ b => blk cls env k b
   | STry _ b hs o f =>
-      let fix hs_m (k : nat) (l : list (handler stmt)) {struct l} : list (path * ident * bool) * nat :=
+      let fix hs_m (k : nat) (l : list (handler stmt)) {struct l} : list (path * option ident * (bool * bool)) * nat :=
         match l with
         | [] => ([], k)
         | Handler _ _ _ hb :: r =>
@@ -271,11 +272,10 @@ Fixpoint s_methods (odd : list ident) (cls : bool) (env : path) (k : nat) (s : s
   | SDef _ _ d _ ps ae _ body =>
       let c := env ++ [k] in
       let '(tb, _) := blk false c (length (flat_map rx_scopes ae)) body in
-      ((if cls then match first_arg ps with
-                    | Some self =>
-                        [(c, self, negb (existsb (fun e => match e with EName o => mem (oname o) odd | _ => false end) d))]
-                    | None => []
-                    end
+      ((if cls then
+          [(c, first_arg ps,
+            (negb (existsb (fun e => match e with EName o => mem (oname o) odd | _ => false end) d),
+             existsb (fun e => match e with EName o => N.eqb (oname o) prop | _ => false end) d))]
         else []) ++ tb,
        (S k + (if cls then match first_arg ps with
                            | Some _ => length (flat_map ci_scopes body)
@@ -287,15 +287,15 @@ Fixpoint s_methods (odd : list ident) (cls : bool) (env : path) (k : nat) (s : s
       let '(tb, _) := blk true c (length (flat_map rx_scopes bs)) body in (tb, S k)
   | _ => ([], k)
   end.
-Fixpoint block_methods (odd : list ident) (cls : bool) (env : path) (k : nat) (b : list stmt)
-  : list (path * ident * bool) * nat :=
+Fixpoint block_methods (odd : list ident) (prop : ident) (cls : bool) (env : path) (k : nat) (b : list stmt)
+  : list (path * option ident * (bool * bool)) * nat :=
   match b with
   | [] => ([], k)
-  | x :: r => let '(a, k1) := s_methods odd cls env k x in
-              let '(c, k2) := block_methods odd cls env k1 r in (a ++ c, k2)
+  | x :: r => let '(a, k1) := s_methods odd prop cls env k x in
+              let '(c, k2) := block_methods odd prop cls env k1 r in (a ++ c, k2)
   end.
-Definition methods (odd : list ident) (p : program) : list (path * ident * bool) :=
-  fst (block_methods odd false [] 0%nat p).
+Definition methods (odd : list ident) (prop : ident) (p : program) : list (path * option ident * (bool * bool)) :=
+  fst (block_methods odd prop false [] 0%nat p).
 
 (* the set of token ids the harness computed from the text (tokens followed by "=" and preceded by "(" or ",") *)
 Definition kw_of (l : list N) : N -> bool := fun i => existsb (N.eqb i) l.
@@ -344,7 +344,7 @@ Section Rope.
   Variable inh : path -> ident -> option binding.     (* inherited attributes of the class at a path *)
   Variable rt : rscope.                               (* rope's scope tree *)
   Variable init call : ident.                         (* the identifiers __init__ and __call__ *)
-  Variable meths : list (path * ident * bool).        (* functions written directly in a class, with their first parameter *)
+  Variable meths : list (path * option ident * (bool * bool)).        (* functions written directly in a class, with their first parameter *)
   Variable kwlike : N -> bool.                        (* worder.is_function_keyword_parameter: followed by "=", preceded by "(" or "," *)
 
   Definition entry_at (b : binding) (x : ident) : option nkind :=
@@ -389,6 +389,12 @@ Section Rope.
   Definition parent_is_class (P : path) : bool :=
     match scope_at rt P with Some s => is_class (rk s) | None => false end.
 
+  Definition is_property (F : path) : bool :=
+    match find (fun e => path_eqb (fst (fst e)) F) meths with
+    | Some (_, _, (_, pr)) => pr
+    | None => false
+    end.
+
   (* pyname.get_object() for the PyName of spelling f owned by scope b, as far as no inference is needed *)
   Definition fun_of (b : binding) (f : ident) : fobj :=
     match b with
@@ -397,7 +403,10 @@ Section Rope.
         | Some so =>
             match entry (revs so) f with
             | Some NDefFun =>
-                match last_fun_child (rchildren so) f with Some j => FFun (o ++ [j]) | None => FUnk end
+                match last_fun_child (rchildren so) f with
+                | Some j => if is_property (o ++ [j]) then FUnk else FFun (o ++ [j])
+                | None => FUnk
+                end
             | Some NDefClass =>
                 match last_class_child (rchildren so) f with Some j => FClass (o ++ [j]) | None => FUnk end
             | Some NImport => FNone          (* nothing resolves: the unknown object *)
@@ -457,9 +466,9 @@ Section Rope.
     end.
 
   Definition is_self (o : path) (b : ident) : option bool :=
-    match find (fun e => path_eqb (fst (fst e)) o && N.eqb (snd (fst e)) b) meths with
-    | Some (_, _, plain) => Some plain
-    | None => None
+    match find (fun e => path_eqb (fst (fst e)) o) meths with
+    | Some (_, Some s, (plain, _)) => if N.eqb s b then Some plain else None
+    | _ => None
     end.
 
   (* StatementEvaluator._Attribute on  b.x  with b a plain name *)
@@ -537,7 +546,7 @@ Section Domain.
   Variable inh : path -> ident -> option binding.
   Variable rt : rscope.
   Variable init call : ident.
-  Variable meths : list (path * ident * bool).
+  Variable meths : list (path * option ident * (bool * bool)).
   Variable kwlike : N -> bool.
 
   Definition class_has_at (q : path) (x : ident) : bool :=
@@ -581,7 +590,7 @@ Section Domain.
                if kwlike (t_id t) then
                  match defname_at bi inh rt (removelast (t_env t)) f with
                  | PName b _ _ =>
-                     match fun_of rt b f with
+                     match fun_of rt meths b f with
                      | FFun F => path_eqb F (t_env t)
                                  && match entry_at rt (BScope F) (t_name t) with Some NParam => true | _ => false end
                      | _ => false
@@ -610,5 +619,5 @@ Section Domain.
 End Domain.
 
 Definition in_fragment_C02 (bi : list ident) (inh : path -> ident -> option binding) (init call : ident)
-           (meths : list (path * ident * bool)) (kwlike : N -> bool) (p : program) : bool :=
+           (meths : list (path * option ident * (bool * bool))) (kwlike : N -> bool) (p : program) : bool :=
   in_fragment_C15 p && toks_ok bi inh (rope_tree p) init call meths kwlike (toks p).
